@@ -735,7 +735,11 @@ def c09_forms():
             ("block", block([I(8), bin_("+", N("gx"), I(9))])), ("yield", y(bin_("+", N("gx"), I(1)))), ("fnlit", fn([], I(1))),
             ("call", call("id", N("gx"))), ("list", lst([N("gx"), bin_("+", N("gx"), I(1))])), ("index", ix1(lst([I(1), I(2)]), bin_("-", N("gx"), N("gx")))),
             ("if-in-if", iff(bin_("<", N("gx"), I(999)), iff(bin_("<", N("gx"), I(998)), I(1)))),
-            ("nested-for", fr(["w"], [call("fromto", I(0), I(2))], fr(["u"], [call("fromto", I(0), I(2))], bin_("+", N("w"), N("u")))))]
+            ("nested-for", fr(["w"], [call("fromto", I(0), I(2))], fr(["u"], [call("fromto", I(0), I(2))], bin_("+", N("w"), N("u"))))),
+            # finishing through return, at top level as well as inside a function
+            ("return", ret(bin_("+", N("gx"), I(1)))), ("return-in-if", iff(bin_("<", N("gx"), I(999)), ret(I(5)))), ("return-in-for", fr(["w"], [call("fromto", I(0), I(3))], ret(N("w")))),
+            ("return-in-while", wh(Bo(True), ret(bin_("*", N("gx"), I(7))))), ("return-mid-block", block([I(1), ret(lst([N("gx")])), I(3)])),
+            ("return-in-nested-for", fr(["w"], [call("fromto", I(0), I(2))], fr(["u"], [call("fromto", I(5), I(8))], ret(bin_("+", N("w"), N("u"))))))]
 
 
 def counted_while(k, body, var="kk"):
@@ -749,7 +753,7 @@ def c09_families(tier, seed, ids=None):
     used, disc, pairs = [], [], []
     for name, f in forms:
         used.append(mk(ids, base + [f, block([f, I(0)]), block([I(0), f]), assign("g", fn([], f)), call("g"), assign("gb", fn([], block([f, I(0)]))), call("gb"),
-                                    assign("gr", fn([], block([ret(f) if f["t"] not in ("assign", "if", "ifelse", "while", "for", "block", "yield") else f, I(0)]))), call("gr"), I(1)], {"form": name}))
+                                    assign("gr", fn([], block([ret(f) if f["t"] not in ("assign", "if", "ifelse", "while", "for", "block", "yield", "ret") else f, I(0)]))), call("gr"), I(1)], {"form": name}))
         disc.append(mk(ids, base + [f, block([f, I(0)]), assign("g", fn([], f)), call("g"), I(1)], {"form": name}, mode="discard"))
         for (n1, n2) in ((3, 6), (200, 400)):
             p = []
